@@ -463,11 +463,27 @@ def register(reg):
       "same data agree on every cell). Tie: the machine's enabledness condition is audited on the real engine for every "
       "evaluation of every bundle (a completed evaluation must not have read a dirty cell), and C18's trace refinement. "
       "Search (the property itself): after every successful bundle of formula-heavy histories a fresh engine is loaded "
-      "from the data columns only and every table compared. Partial: formulas are abstract deterministic programs; lookup "
-      "index maintenance is proved separately (C13) and tied only through the fresh-engine comparison.",
+      "from the data columns only and every table compared. Below the Recalc machine, lookup.py's _LookupRelation "
+      "bookkeeping (which referring rows are handed to invalidate_records when keys of a lookup index change; the "
+      "_invalidated_keys_cache) has its own model Grist.LookupRel, proved for ALL operation sequences on one relation: "
+      "lookuprel_map_exact (the row<->key map is exactly the lookups recorded since each row's last reset), "
+      "lookuprel_cache_exact, lookuprel_handed_or_already_handed (a row that recorded key k and was not reset is handed "
+      "over by every invalidation of k unless an earlier invalidation of k handed it over and nothing cleared the cache "
+      "since), lookuprel_clean_live_handed / lookuprel_settled_rows_handed (under the explicit hypothesis engineSettled "
+      "every lookup of the latest evaluation of a row the engine treats as up to date is honoured by every invalidation), "
+      "and machine-checked witnesses that all of this fails when _add_lookup does not clear the cache "
+      "(lookuprel_variant_*). Tie: every relation of every quick-tier history (every third in thorough) is recorded at "
+      "run time and replayed in the model (rows handed over per invalidate_affected_keys, get_affected_rows_by_keys, "
+      "final map and cache), plus seeded random operation sequences and the theorems' witnesses on a bare "
+      "_LookupRelation; engineSettled is evaluated on every trace at every end of a bundle. Partial: formulas are "
+      "abstract deterministic programs; lookup index maintenance is proved separately (C13) and tied only through the "
+      "fresh-engine comparison; that the engine issues reset_rows / re-evaluations as engineSettled says is observed per "
+      "trace, not proved, and fails (counted, expected) for the #summary# helper columns whose lookupOrAddDerived "
+      "changes the index it reads; the tracker's fan-out to all relations is audited at run time only.",
       "no volatile / side-effecting user formulas and no trigger-formula data columns (excluded by the property); the "
-      "read audit covers row-specific reads.",
-      "Lean 4 theorems (recalculation invariant, unique fixpoint) + read audit + fresh-engine differential")
+      "read audit covers row-specific reads; LookupRel keys are tokens numbered by Python equality/hash per relation.",
+      "Lean 4 theorems (recalculation invariant, unique fixpoint, lookup-relation invalidation safety) + read audit + "
+      "run-time trace correspondence + fresh-engine differential")
 
   reg("C06", "proof",
       "schedule_independent_acyclic(_state): two complete runs of the Recalc machine from the same state end in the same "
